@@ -3,6 +3,7 @@ package main
 import (
 	"fmt"
 	nurl "net/url"
+	"strings"
 
 	"golang.org/x/net/html"
 
@@ -169,14 +170,41 @@ func runC04(ctx *Ctx) {
 }
 
 func runC05(ctx *Ctx) {
+	corrStrip := newCorr("strip")
+	defer corrStrip.run(ctx)
 	ctx.Rep.Rule = "pages whose every element may carry on*, id, class, style, data-* and unknown attributes, over all retained kinds (paragraphs, lists, images, figures+captions, videos, data tables, embeds) and with script/style children inside tables, captions and tweets; distinct by structure; non-trivial = at least one retained element carried a forbidden attribute in the source"
 	contentRun{id: "C05", n: [2]int{300, 12000}, url: pageURL,
 		weights: []W{{"para", 30}, {"heading", 4}, {"list", 8}, {"quote", 4}, {"datatable", 8}, {"figure", 8}, {"img", 8}, {"video", 6}, {"embed", 8}, {"script", 4}, {"divwrap", 6}, {"pre", 2}},
 		setup:   func(g *PageGen) { g.Decorate = true },
+		corr: func(ctx *Ctx, x *distilled, replay interface{}) {
+			// model of StripAttributes vs the real one, on a private copy of the page body
+			d := parseDoc(x.Src)
+			body := findFirst(d.Root, "body")
+			if body == nil {
+				return
+			}
+			var sb strings.Builder
+			d.encodeTree(body, &sb)
+			distiller.VerifStripAttributes(body)
+			var els []*html.Node
+			findAll(body, func(n *html.Node) bool { return n.Type == html.ElementNode }, &els)
+			var parts []string
+			for _, e := range els {
+				var as []string
+				for _, a := range e.Attr {
+					as = append(as, hx(a.Key)+"="+hx(a.Val))
+				}
+				parts = append(parts, e.Data+":"+strings.Join(as, " "))
+			}
+			corrStrip.add(sb.String(), strings.Join(parts, "|"), replay)
+		},
 		extra: func(ctx *Ctx, i int, r *Rng) []string {
 			g := newPageGen(r)
 			g.Decorate = true
 			scr := g.scriptish()
+			if r.Chance(30) {
+				scr = `<script style="display:block">var ` + g.word() + `</script><style style="display:inline">.` + g.word() + `{}</style>`
+			}
 			body := "<p>" + g.words(40) + "</p>" +
 				"<table><tr><th>" + g.words(1) + "</th><th>" + g.words(1) + "</th></tr><tr><td>" + g.words(2) + scr + "</td><td onclick=\"x()\">" + g.words(2) + "</td></tr></table>" +
 				"<p>" + g.words(40) + "</p>" +
@@ -225,6 +253,8 @@ func runC07(ctx *Ctx) {
 }
 
 func runC09(ctx *Ctx) {
+	corrWords := newCorr("countwords")
+	defer corrWords.run(ctx)
 	ctx.Rep.Rule = "article-like pages over all block kinds, plus text-only pages (inline mixes, anchors, br, detached punctuation) for the word-count clause; distinct by structure; non-trivial = a retained table or figure, or a text-only page with at least two retained blocks"
 	contentRun{id: "C09", n: [2]int{300, 12000}, url: pageURL,
 		extra: func(ctx *Ctx, i int, r *Rng) []string {
@@ -233,6 +263,11 @@ func runC09(ctx *Ctx) {
 			return []string{g.Page(r.Range(3, 12), "")}
 		},
 		oracle: func(ctx *Ctx, x *distilled, replay interface{}) bool {
+			for _, l := range strings.Split(x.Res.Text, "\n") {
+				if len(l) > 0 && len(l) < 400 {
+					corrWords.add(hx(l), fmt.Sprint(distiller.VerifFastWordCount(l)), l)
+				}
+			}
 			dump := distiller.VerifExtract(parseDoc(x.Src).elementRoot(), x.URL, 0)
 			textOnly := oracleC09(ctx.Rep, x, dump, replay)
 			if textOnly {
